@@ -4,6 +4,7 @@ import (
 	"fmt"
 	"go/ast"
 	"go/token"
+	"go/types"
 	"sort"
 	"strings"
 
@@ -166,6 +167,8 @@ func propC16(w *World, r *Report) {
 		}
 	}
 	r.Check(nReqFns >= 3, "R4", "functions on the request paths scanned for blocking operations", "-", fmt.Sprint(nReqFns))
+	checkLockPairing(w, r, "R4")
+	checkSharedPointerGuards(w, r, "R4", a)
 	// R2: CopyRecent (shared with C19.Q6)
 	if ri, err := resolveRing(w); err != nil {
 		r.Unknown("R2", "motion.FrameLoop", "-", err.Error())
@@ -296,4 +299,292 @@ func propC16(w *World, r *Report) {
 		}
 	}
 	r.Check(n >= 1 && nParse >= 1, "G4", "frame write sites in MotionProcessor (the live path's parser call among them)", "-", fmt.Sprintf("%d sites, %d parser", n, nParse))
+}
+
+// checkLockPairing: every acquisition of a mutex in the recorder daemon and in the motion package is released on every
+// path: no return with the mutex possibly held (unless a deferred Unlock registered on all paths releases it), and no
+// second acquisition of a mutex that may still be held (self-deadlock). A lock left held stalls the next requester and
+// the frame loop's next connection for good.
+func checkLockPairing(w *World, r *Report, rule string) {
+	nLock := 0
+	for _, fn := range w.RepoFuncs() {
+		if fn.Pkg == nil {
+			continue
+		}
+		pp := fn.Pkg.Pkg.Path()
+		if !(strings.HasSuffix(pp, "/cmd/thermal-recorder") || strings.HasSuffix(pp, "/motion")) {
+			continue
+		}
+		has := false
+		for _, b := range fn.Blocks {
+			for _, in := range b.Instrs {
+				if c, ok := in.(*ssa.Call); ok && (isMutexOp(c.Call.StaticCallee(), "Lock") || isMutexOp(c.Call.StaticCallee(), "RLock")) {
+					has = true
+				}
+			}
+		}
+		if !has {
+			continue
+		}
+		nb := len(fn.Blocks)
+		mayIn := make([]map[string]bool, nb) // locks that may be held
+		defIn := make([]map[string]bool, nb) // deferred unlocks registered on all paths
+		mayOut := make([]map[string]bool, nb)
+		defOut := make([]map[string]bool, nb)
+		reached := make([]bool, nb)
+		reached[0] = true
+		mayIn[0], defIn[0] = map[string]bool{}, map[string]bool{}
+		type finding struct {
+			pos  string
+			what string
+		}
+		var finds []finding
+		for iter, changed := 0, true; changed && iter < 50; iter++ {
+			changed = false
+			finds = nil
+			for _, b := range fn.Blocks {
+				i := b.Index
+				if i != 0 {
+					var m, d map[string]bool
+					for _, p := range b.Preds {
+						if mayOut[p.Index] == nil {
+							continue
+						}
+						reached[i] = true
+						if m == nil {
+							m, d = copySet(mayOut[p.Index]), copySet(defOut[p.Index])
+						} else {
+							for k := range mayOut[p.Index] {
+								m[k] = true
+							}
+							for k := range d {
+								if !defOut[p.Index][k] {
+									delete(d, k)
+								}
+							}
+						}
+					}
+					if m == nil {
+						continue
+					}
+					mayIn[i], defIn[i] = m, d
+				}
+				cur, def := copySet(mayIn[i]), copySet(defIn[i])
+				for _, in := range b.Instrs {
+					switch x := in.(type) {
+					case *ssa.Defer:
+						if c := x.Call.StaticCallee(); isMutexOp(c, "Unlock") || isMutexOp(c, "RUnlock") {
+							def[lsLockName(x.Call.Args[0], "")] = true
+						} else {
+							var body *ssa.Function = c
+							if mc, ok := x.Call.Value.(*ssa.MakeClosure); ok {
+								body, _ = mc.Fn.(*ssa.Function)
+							}
+							for _, l := range alwaysUnlocks(w, body) {
+								def[l] = true // a deferred closure / helper every path of which releases the mutex
+							}
+						}
+					case *ssa.Call:
+						c := x.Call.StaticCallee()
+						switch {
+						case isMutexOp(c, "Lock") || isMutexOp(c, "RLock"):
+							l := lsLockName(x.Call.Args[0], "")
+							if cur[l] {
+								finds = append(finds, finding{w.InstrPos(x), "acquires " + l + " while it may still be held (the goroutine would wait for itself)"})
+							}
+							cur[l] = true
+							nLock++
+						case isMutexOp(c, "Unlock") || isMutexOp(c, "RUnlock"):
+							delete(cur, lsLockName(x.Call.Args[0], ""))
+						default:
+							for _, l := range alwaysUnlocks(w, c) {
+								delete(cur, l) // a helper every path of which releases the mutex
+							}
+						}
+					case *ssa.Return:
+						for l := range cur {
+							if !def[l] {
+								finds = append(finds, finding{w.InstrPos(x), "returns with " + l + " possibly still held (no Unlock on this path and no deferred one)"})
+							}
+						}
+					}
+				}
+				if !sameSet(cur, mayOut[i]) || !sameSet(def, defOut[i]) {
+					mayOut[i], defOut[i] = cur, def
+					changed = true
+				}
+			}
+		}
+		name := "every mutex acquired in " + fn.String() + " is released on every path"
+		if len(finds) > 0 {
+			sort.Slice(finds, func(i, j int) bool { return finds[i].pos+finds[i].what < finds[j].pos+finds[j].what })
+			r.Fail(rule, name, finds[0].pos, finds[0].what, "")
+		} else {
+			r.Pass(rule, name, w.Pos(fn.Pos()), "")
+		}
+	}
+	r.Check(nLock >= 5, "G4", "mutex acquisitions found", "-", fmt.Sprint(nLock))
+}
+
+func sameSet(a, b map[string]bool) bool {
+	if b == nil {
+		return false
+	}
+	if len(a) != len(b) {
+		return false
+	}
+	for k := range a {
+		if !b[k] {
+			return false
+		}
+	}
+	return true
+}
+
+// checkSharedPointerGuards: the package-level pointers the frame loop publishes per connection (the processor, the
+// camera description) are nil until the first camera connects. Every function reached from a service request uses such a
+// pointer (method call, field access) only where a test against nil of that very load has excluded nil - a request that
+// arrives early is refused with an error, it does not take the daemon down with a nil dereference.
+func checkSharedPointerGuards(w *World, r *Report, rule string, a *lockAnalysis) {
+	pkg := w.Pkg("cmd/thermal-recorder")
+	if pkg == nil {
+		return
+	}
+	// the request side: functions reached from a D-Bus method or from a goroutine other than the frame loop's (main)
+	reqSide := map[*ssa.Function]bool{}
+	for _, root := range a.Roots {
+		if root.Name == "main" {
+			continue
+		}
+		for f := range a.Funcs[root.Name] {
+			reqSide[f] = true
+		}
+	}
+	// pointers stored by the connection handler family under the mutex: globals of pointer type to repo structs
+	nUse := 0
+	for _, fn := range w.funcsInPkg("cmd/thermal-recorder") {
+		if !reqSide[fn] {
+			continue
+		}
+		// requester side only: functions that never store to the global
+		for _, b := range fn.Blocks {
+			for _, in := range b.Instrs {
+				ld, ok := in.(*ssa.UnOp)
+				if !ok || ld.Op != token.MUL {
+					continue
+				}
+				g, ok := ld.X.(*ssa.Global)
+				if !ok || g.Pkg != pkg {
+					continue
+				}
+				pt, ok := g.Type().(*types.Pointer)
+				if !ok {
+					continue
+				}
+				if _, isPtr := pt.Elem().Underlying().(*types.Pointer); !isPtr {
+					continue
+				}
+				publishedAtRunTime := false
+				for _, f2 := range w.funcsInPkg("cmd/thermal-recorder") {
+					if f2.Name() != "init" && storesGlobal(f2, g) {
+						publishedAtRunTime = true
+					}
+				}
+				if !publishedAtRunTime {
+					continue // set once by the package initialiser: never nil afterwards
+				}
+				if storesGlobal(fn, g) || ld.Referrers() == nil {
+					continue // the publishing side: it has just stored a non-nil value itself
+				}
+				for _, rf := range *ld.Referrers() {
+					deref := false
+					switch u := rf.(type) {
+					case *ssa.FieldAddr:
+						deref = u.X == ssa.Value(ld)
+					case *ssa.Call:
+						if cl := u.Call.StaticCallee(); cl != nil && cl.Signature.Recv() != nil && len(u.Call.Args) > 0 && u.Call.Args[0] == ssa.Value(ld) {
+							deref = !nilSafeMethod(cl)
+						}
+					case *ssa.UnOp:
+						deref = u.Op == token.MUL && u.X == ssa.Value(ld)
+					}
+					if !deref {
+						continue
+					}
+					nUse++
+					ui := rf.(ssa.Instruction)
+					guarded := false
+					for _, gd := range newTermEnv(w).guardsOf(ui.Block()) {
+						bo, ok := gd.If.Cond.(*ssa.BinOp)
+						if !ok {
+							continue
+						}
+						sameLoad := func(v ssa.Value) bool {
+							u, ok := v.(*ssa.UnOp)
+							return ok && u.Op == token.MUL && u.X == ssa.Value(g)
+						}
+						if (sameLoad(bo.X) && isNilConst(bo.Y)) || (sameLoad(bo.Y) && isNilConst(bo.X)) {
+							if (bo.Op == token.NEQ && gd.Pos) || (bo.Op == token.EQL && !gd.Pos) {
+								guarded = true
+							}
+						}
+					}
+					r.Check(guarded, rule, "request side: "+g.Name()+" is used in "+fn.Name()+" only where it was found non-nil", w.InstrPos(ui), "")
+				}
+			}
+		}
+	}
+	r.Check(nUse >= 2, "G4", "uses of the published pointers on the request side found", "-", fmt.Sprint(nUse))
+}
+
+func storesGlobal(fn *ssa.Function, g *ssa.Global) bool {
+	for _, b := range fn.Blocks {
+		for _, in := range b.Instrs {
+			if st, ok := in.(*ssa.Store); ok && st.Addr == ssa.Value(g) {
+				return true
+			}
+		}
+	}
+	return false
+}
+
+// nilSafeMethod: a pointer-receiver method that tests its receiver against nil before anything else.
+func nilSafeMethod(fn *ssa.Function) bool {
+	if len(fn.Blocks) == 0 || len(fn.Params) == 0 {
+		return false
+	}
+	if iff, ok := fn.Blocks[0].Instrs[len(fn.Blocks[0].Instrs)-1].(*ssa.If); ok {
+		if bo, ok := iff.Cond.(*ssa.BinOp); ok && (bo.X == ssa.Value(fn.Params[0]) && isNilConst(bo.Y) || bo.Y == ssa.Value(fn.Params[0]) && isNilConst(bo.X)) {
+			return true
+		}
+	}
+	return false
+}
+
+// alwaysUnlocks: the package-level mutexes that every execution of fn (a repository function or closure) releases: an
+// Unlock on a global mutex in a block that dominates every return.
+func alwaysUnlocks(w *World, fn *ssa.Function) []string {
+	if fn == nil || len(fn.Blocks) == 0 || !w.IsRepoFunc(fn) {
+		return nil
+	}
+	var out []string
+	for _, b := range fn.Blocks {
+		all := true
+		for _, rb := range fn.Blocks {
+			if _, isRet := rb.Instrs[len(rb.Instrs)-1].(*ssa.Return); isRet && !(b == rb || b.Dominates(rb)) {
+				all = false
+			}
+		}
+		if !all {
+			continue
+		}
+		for _, in := range b.Instrs {
+			if c, ok := in.(*ssa.Call); ok && (isMutexOp(c.Call.StaticCallee(), "Unlock") || isMutexOp(c.Call.StaticCallee(), "RUnlock")) {
+				if _, isG := c.Call.Args[0].(*ssa.Global); isG {
+					out = append(out, lsLockName(c.Call.Args[0], ""))
+				}
+			}
+		}
+	}
+	return out
 }
